@@ -1117,3 +1117,9 @@ def _related(interp, args, kwargs, node):
 @spec("is_int")
 def _is_int(interp, args, kwargs, node):
     return VBool(isinstance(args[0], VInt))
+
+
+@spec("is_new_object")
+def _is_new_object(interp, args, kwargs, node):
+    r = SPEC["same_object"](interp, args, kwargs, node)
+    return VBool(z3.Not(interp.as_bool_term(r, node)))
